@@ -3,3 +3,4 @@ pub mod inv;
 pub mod group;
 pub mod slotmap;
 pub mod slots;
+pub mod shapes;
